@@ -331,6 +331,57 @@ func checkSegmentMruChain(p *core.Program, r *core.Report) {
 				}) {
 					upper = true
 				}
+				// a clamp extracted into a helper: every value the helper returns is a constant or its
+				// parameter on a path where the parameter was found not to exceed a constant / non-wire bound
+				if hc, ok := core.Strip(st.Val).(*ssa.Call); ok {
+					if f := hc.Common().StaticCallee(); f != nil && core.IsRepo(f) && f.Blocks != nil && len(f.Params) == 1 && isPeer(hc.Common().Args[0]) {
+						all, n := true, 0
+						for _, rv := range core.ReturnValues(f, 0) {
+							n++
+							if _, isC := core.ConstInt(rv.V); isC {
+								continue
+							}
+							if rv.V != ssa.Value(f.Params[0]) {
+								all = false
+								continue
+							}
+							cs := core.DominatingConds(rv.At.Block())
+							if ifi, ok := rv.At.(*ssa.If); ok {
+								_ = ifi
+							}
+							// include the edge condition of a phi predecessor
+							if blk := rv.At.Block(); len(blk.Instrs) > 0 {
+								if ifi, ok := blk.Instrs[len(blk.Instrs)-1].(*ssa.If); ok {
+									for i, sc := range blk.Succs {
+										for _, in := range sc.Instrs {
+											if phi, isPhi := in.(*ssa.Phi); isPhi {
+												for j, e := range phi.Edges {
+													if e == rv.V && sc.Preds[j] == blk {
+														cs = append(cs, core.Cond{V: ifi.Cond, True: i == 0, If: ifi})
+													}
+												}
+											}
+										}
+									}
+								}
+							}
+							okB := false
+							for _, c := range cs {
+								if cb, ok := c.V.(*ssa.BinOp); ok && cb.X == ssa.Value(f.Params[0]) {
+									if _, isC := core.ConstInt(cb.Y); isC && (((cb.Op == token.LEQ || cb.Op == token.LSS) && c.True) || ((cb.Op == token.GTR || cb.Op == token.GEQ) && !c.True)) {
+										okB = true
+									}
+								}
+							}
+							if !okB {
+								all = false
+							}
+						}
+						if all && n > 0 {
+							upper = true
+						}
+					}
+				}
 			}
 			r.Check(lower && upper, key, rule, p.Pos(st.Pos()), "", fmt.Sprintf("lower bound (>=1) established: %v, upper bound established: %v — the peer's SegmentMru is stored unchecked: 0 makes TransferManager.Send loop for ever sending empty segments, 2^63 panics in make([]byte, mtu)", lower, upper))
 		})
